@@ -127,6 +127,8 @@ class System:
                     i.param.update(**{a["n"]: v})
             elif n == "instmeta":
                 self.insts[a["i"] - 1].param[a["n"]].precedence = a["b"]
+            elif n == "insttrigger":
+                self.insts[a["i"] - 1].param.trigger(a["n"])
             elif n == "instconst":
                 self.insts[a["i"] - 1].param[a["n"]].constant = a["b"]
             elif n == "instobjs":
@@ -212,7 +214,7 @@ class System:
         elif name == "readns":
             ns_classes.add(act["c"])
             ns_insts.update(k for k, i in enumerate(self.insts) if type(i).__name__ == act["c"])
-        elif name in ("instparam", "instmeta", "instset", "mutateinst", "enteredit", "exitedit", "instobjs", "instconst"):
+        elif name in ("instparam", "instmeta", "instset", "mutateinst", "enteredit", "exitedit", "instobjs", "instconst", "insttrigger"):
             ns_insts.add(act["i"] - 1)
         elif name in ("addparam", "classobjs", "classmeta"):
             ns_classes.add(act["c"])
